@@ -235,60 +235,89 @@ def value_filter(rep, rule, mod):
 
 
 def prune(rep, rule, mod, fname):
+    """over path summaries: the descent is recorded once per level as
+    (container, key) in a fresh list; the prune walk runs over that list
+    backwards, deletes container[key] only when it is empty and never
+    continues past a non-empty one"""
+    from .declsem import alloc_site
+    from .specsem import polarity_text
     f = find_def(mod, 'BaseAdapterRegistry.' + fname)
     site = 'BaseAdapterRegistry.' + fname
     cfg = cfg_of(f)
-    ok = False
-    detail = 'pruning loop over the recorded descent not found'
-    for lp in walk_local(f):
-        if not isinstance(lp, ast.For) or not isinstance(lp.target, ast.Tuple):
-            continue
-        src, d = iter_polarity(lp.iter)
-        src = resolve_local(f, src) if isinstance(src, ast.Name) and src.id != 'lookups' else src
-        if not (isinstance(src, ast.Name)):
-            continue
-        names = [e.id for e in lp.target.elts if isinstance(e, ast.Name)]
-        if len(names) != 2:
-            continue
-        comp, k = names
-        dels = nodes_matching(cfg, 'del %s[%s]' % (comp, k), 'exec')
-        if not dels:
-            continue
-        ln = cfg.node_of(lp)
-        okd = all(guarded(cfg, dn, '%s[%s]' % (comp, k), False, start=ln) for dn in dels)
-        # a non-empty container stops the loop: from the truthy edge the loop
-        # head is not reachable again
-        tn = test_nodes(cfg, '%s[%s]' % (comp, k))
-        okstop = bool(tn)
-        for n, pol in tn:
-            lab = 'T' if pol else 'F'
-            for m, l in n.succ:
-                if l == lab:
-                    r = cfg.reach(m, include_start=True, avoid=lambda x: x is ln)
-                    # may only leave the loop
-                    if any(x.id in r for x in dels):
-                        okstop = False
-                    if ln.id in cfg.reach(m, include_start=True):
-                        okstop = okstop and False
-        okdir = d == 'rev'
-        # the loop itself runs only when the leaf container became empty
-        okleaf = guarded_any(cfg, ln, [('components', False), ('new', False)])
-        # descent order recorded
-        app = find_all(f, '%s.append(($c, $k))' % src.id)
-        ok = okd and okstop and okdir and okleaf and len(app) == 1
-        detail = ('emptied containers are removed leaf -> root (%s), each only '
-                  'if empty (%s), stopping at the first non-empty one (%s), only '
-                  'after the leaf became empty (%s)' % (okdir, okd, okstop, okleaf))
-    rep.check(rule, site, ok, detail, construct='prune', node=f)
-    wl = [n for n in walk_local(f) if isinstance(n, ast.While)]
-    okw = False
-    for w in wl:
-        c = norm_src(w.test)
-        if c in ('byorder and (not byorder[-1])', 'byorder and not byorder[-1]') and \
-                len(w.body) == 1 and match('del byorder[-1]', w.body[0], 'exec') is not None:
-            okw = True
-    rep.check(rule, site, okw,
-              'trailing per-order mappings are dropped only while empty',
+    ss = normal(summaries(f))
+    probs = []
+    walks = 0
+    kinds = set()
+    for ps in ss:
+        its = [(k, c) for k, (c, t, p) in enumerate(ps.order)
+               if t and c.startswith('ITER(')]
+        for k, c in its:
+            src = ps.order_ast.get(k)
+            if src is None:
+                continue
+            base, d = iter_polarity(src)
+            s_ = alloc_site(base)
+            if s_ is None:
+                continue
+            E = 'EACH(%s)' % nt(src)
+            slot = '%s[0][%s[1]]' % (E, E)
+            recs = [e for e in ps.events if e.kind == 'call' and
+                    isinstance(e.r.func, ast.Attribute) and e.r.func.attr == 'append'
+                    and alloc_site(e.r.func.value) == s_]
+            if not recs:
+                continue
+            walks += 1
+            if d != 'rev':
+                probs.append('the recorded descent is walked %s (required: leaf -> root)' % d)
+            for e in recs:
+                a = e.r.args[0] if e.r.args else None
+                if not (isinstance(a, ast.Tuple) and len(a.elts) == 2 and
+                        nt(a.elts[1]).startswith('EACH(') and
+                        'provided,)' in nt(a.elts[1])):
+                    probs.append('descent recorded as `%s`' % nt(a)[:60])
+            emp = [(j, t) for j, (cc, t, p) in enumerate(ps.order) if cc == slot and j > k]
+            dels = [e for e in ps.dels() if nt(e.r) == slot]
+            if not emp:
+                probs.append('a container is removed without testing that it is empty')
+                continue
+            j, t = emp[-1]
+            kinds.add(t)
+            if t:
+                if dels:
+                    probs.append('a non-empty container is removed')
+                if ps.reenters_loop(cfg, j):
+                    probs.append('the walk continues past a non-empty container')
+            elif len(dels) != 1:
+                probs.append('an emptied container is not removed')
+    if not walks:
+        probs.append('pruning walk over the recorded descent not found')
+    elif kinds != {True, False}:
+        probs.append('outcomes of the emptiness test seen: %s' % sorted(kinds))
+    rep.check(rule, site, not probs,
+              'emptied containers are removed leaf -> root, each only if empty, '
+              'stopping at the first non-empty one (%d walk paths)' % walks
+              if not probs else {'problems': sorted(set(probs))[:3]},
+              construct='prune', node=f)
+    STORE = 'self._adapters' if fname == 'unregister' else 'self._subscribers'
+    probs = []
+    ndel = 0
+    for ps in ss:
+        for e in ps.dels():
+            if nt(e.r) != '%s[-1]' % STORE:
+                continue
+            ndel += 1
+            idx = ps.index(e)
+            before = [(c, t) for c, t, p in ps.order if p <= idx]
+            nonempty = [t for c, t in before if c == STORE]
+            last = [t for c, t in before if c == '%s[-1]' % STORE]
+            if not nonempty or nonempty[-1] is not True or not last or last[-1] is not False:
+                probs.append('a trailing per-order mapping is dropped without testing '
+                             'that it exists and is empty')
+    if not ndel:
+        probs.append('trailing empty per-order mappings are never dropped')
+    rep.check(rule, site, not probs,
+              'trailing per-order mappings are dropped only while empty'
+              if not probs else {'problems': sorted(set(probs))[:2]},
               construct='trailing', node=f)
 
 
